@@ -95,3 +95,61 @@ def model_index(tab, c):
     if d[0] == 2:
         return ("generic", d[1], d[2])
     return ("no-generic-call",)
+
+
+# ---------------------------------------------------------------------------------------------
+# writer.make_definitions / writer.encode_dict (translators/writer2coq.py)
+# ---------------------------------------------------------------------------------------------
+
+def translate_writer(ctx):
+    src = os.path.join(C.REPO, "fastparquet", "writer.py")
+    p = subprocess.run([C.PY, os.path.join(C.VERIF, "translators", "writer2coq.py"), src], stdout=subprocess.PIPE, stderr=subprocess.PIPE)
+    gen = os.path.join(ctx.gen_dir, "GenWriter.v")
+    if p.returncode != 0:
+        why = p.stderr.decode()[-300:].strip()
+        ctx.notes.append("translator_fallback: writer2coq refused the source (%s); pinned text GenWriter.pinned.v + the relation "
+                         "'decodes (spec) to the input' on the real bytes used" % why)
+        ctx.extra["translator_writer2coq"] = "fallback: " + why
+        txt = open(os.path.join(C.COQ, "genproofs", "GenWriter.pinned.v")).read()
+        mode = "fallback"
+    else:
+        txt = p.stdout.decode()
+        ctx.extra["translator_writer2coq"] = "translated"
+        mode = "translated"
+    if not os.path.exists(gen) or open(gen).read() != txt:
+        open(gen, "w").write(txt)
+    ok, out = C.coqc(gen, extra_q=[(ctx.gen_dir, "PqGen")])
+    ctx.obligation("GenWriter.v (%s) compiles" % ("regenerated from writer.make_definitions / encode_dict" if mode == "translated"
+                                                 else "pinned text: the translator refused the source"), ok, out)
+    if ok:
+        gp = os.path.join(ctx.gen_dir, "GenWriterProofs.v")
+        shutil.copy(os.path.join(C.COQ, "genproofs", "GenWriterProofs.v"), gp)
+        ctx.coq_file(gp, extra_q=[(ctx.gen_dir, "PqGen")])
+    return mode if ok else None
+
+
+def writer_correspondence(ctx, mode, obs, limit=80):
+    """the regenerated Gallina functions evaluated in the kernel against the bytes the real functions produced (only when the
+    text was translated from the source: byte equality is the tie of the TRANSLATOR, not an obligation on the writer - with the
+    pinned text after a fallback the proved relation on the real bytes decides)"""
+    if mode != "translated" or not obs:
+        return
+    pick = []
+    for fn in ("make_definitions", "encode_dict"):
+        sub = [o for o in obs if o[0]["fn"] == fn]
+        step = max(1, len(sub) // (limit // 2))
+        pick += sub[::step][:limit // 2]
+    exprs = []
+    for c, r in pick:
+        if c["fn"] == "make_definitions":
+            mask = "[" + "; ".join("0" if v is None else "1" for v in c["vals"]) + "]"
+            exprs.append("gen_make_definitions %s %d %d %s" % ("true" if c["no_nulls"] else "false", c["version"], len(c["vals"]), mask))
+        else:
+            exprs.append("gen_encode_dict %d [%s]" % (c["meta"]["isz"], "; ".join(str(v) for v in c["vals"])))
+    req = ("From Coq Require Import NArith List.\nFrom PqGen Require Import GenWriter.\nImport ListNotations.\nOpen Scope N_scope.\n")
+    res = C.vm_eval(req, exprs, "list N", os.path.join(ctx.scratch, "writer_vm"), tag="writer", extra_q=[(ctx.gen_dir, "PqGen")])
+    for (c, r), k in zip(pick, res):
+        got = bytes(int(x) for x in C.parse_coq(k)).hex() if k is not None else None
+        ctx.correspondence("regenerated %s (GenWriter.v, kernel evaluation) = bytes the real function wrote" % c["fn"],
+                           {"fn": c["fn"], "n": len(c["vals"]), "version": c.get("version"), "no_nulls": c.get("no_nulls"), "dtype": c.get("dtype")},
+                           got, r[1])
